@@ -5,8 +5,8 @@
           events  = comma list of  C<id>:<p|d|r|g>:<size> | T | X
           ->  per event (";"-separated) the observations in order ("," separated, "-" = none):
               S<n>:P<ids>:D<ids>:R<ids>:G<ids> | D<id>=ok<payload>|err<e>|shut | PANIC       (ids "."-separated, "-" = none)
-   stream <id> <guard 0|1> <events>      events = s<f>:<0|1> | r<payload> | e | x
-          ->  PANIC, or per sent future (sorted by id, "," separated): <f>=ok<r>|errsend|eof|pending
+   stream <id> <guard 0|1> <events>      events = s<f>:<0|1> | r<payload> | e | x | c<f>  (c: the context of Send(f) is done)
+          ->  PANIC, or per sent future (sorted by id, "," separated): <f>=ok<r>|errsend|eof|errctx|pending
    merge  <id> <chan>|<chan>|...          chan = comma list of k<hexkey>:<payload> | E<e>      ("-" = empty channel)
           ->  the merged sequence in the same item syntax; runs of equal keys sorted by payload
    list   <id> <chan>|<chan>|...          -> sorted multiset of all items
@@ -64,6 +64,7 @@ let parse_sevent s =
   | 'r' -> M.SRecvOk (n_of_string (sub_from s 1))
   | 'e' -> M.SRecvErr
   | 'x' -> M.SCtxDone
+  | 'c' -> M.SWaitCancel (n_of_string (sub_from s 1))
   | _ -> failwith ("bad stream event " ^ s)
 
 (* ---- items ---- *)
@@ -135,6 +136,7 @@ let () = read_lines (fun line ->
           | [M.SOk r] -> "ok" ^ string_of_n r
           | [M.SErrSend] -> "errsend"
           | [M.SEOF] -> "eof"
+          | [M.SErrCtx] -> "errctx"
           | _ -> "TWICE" in
         let l = List.sort (fun (a, _) (b, _) -> Z.compare a b) (List.map (fun f -> (z_of_n f, res f)) sent) in
         Printf.printf "%s %s\n" id (join_or_dash "," (List.map (fun (f, r) -> Z.to_string f ^ "=" ^ r) l))
